@@ -32,6 +32,27 @@ type act struct {
 	Cid  string `json:"cid,omitempty"`
 	Kind string `json:"kind,omitempty"`
 	Op   string `json:"op,omitempty"`
+	// branch tag of the specification's action (input only): for HandleErr its first element says
+	// whether the operation whose call returned had been cancelled
+	Br json.RawMessage `json:"br,omitempty"`
+}
+
+// out: the action as recorded in the observations (without the input-only branch tag)
+func (a act) out() act { a.Br = nil; return a }
+
+// wantCancelled: for a HandleErr step, was the operation cancelled (nil when the step does not say)
+func (a *act) wantCancelled() *bool {
+	if a.Name != "HandleErr" || len(a.Br) == 0 {
+		return nil
+	}
+	var l []interface{}
+	if json.Unmarshal(a.Br, &l) != nil || len(l) == 0 {
+		return nil
+	}
+	if b, ok := l[0].(bool); ok {
+		return &b
+	}
+	return nil
 }
 
 type proj struct {
@@ -103,7 +124,12 @@ type env struct {
 
 	gmu     sync.Mutex
 	gated   bool
-	waiting map[string][]chan struct{} // "point|cid|type" -> workers held at that gate
+	waiting map[string][]gateWaiter // "point|cid|type" -> workers held at that gate
+}
+
+type gateWaiter struct {
+	ch chan struct{}
+	op *optracker.Operation
 }
 
 // gate registry: the hook is package-global in the repository, scripts run in parallel with disjoint CIDs
@@ -126,7 +152,7 @@ func gateFn(point string, op *optracker.Operation) {
 	}
 	key := point + "|" + e.names.CidName(op.Cid()) + "|" + typ
 	ch := make(chan struct{})
-	e.waiting[key] = append(e.waiting[key], ch)
+	e.waiting[key] = append(e.waiting[key], gateWaiter{ch, op})
 	e.gmu.Unlock()
 	select {
 	case <-ch:
@@ -134,17 +160,32 @@ func gateFn(point string, op *optracker.Operation) {
 	}
 }
 
-// releaseGate lets the oldest worker held at (point, cid, type) continue.
-func (e *env) releaseGate(point, cidName, typ string) error {
+// releaseGate lets a worker held at (point, cid, type) continue: the oldest one whose operation is
+// cancelled / not cancelled as the step says (several operations of one CID and type can be parked
+// at the gate: the live one and cancelled predecessors), else the oldest one.
+func (e *env) releaseGate(point, cidName, typ string, cancelled *bool) error {
 	key := point + "|" + cidName + "|" + typ
 	deadline := time.Now().Add(2 * time.Second)
 	for {
 		e.gmu.Lock()
 		if l := e.waiting[key]; len(l) > 0 {
-			close(l[0])
-			e.waiting[key] = l[1:]
-			e.gmu.Unlock()
-			return nil
+			k := -1
+			for i, w := range l {
+				if cancelled == nil || w.op.Cancelled() == *cancelled {
+					k = i
+					break
+				}
+			}
+			// the step names a cancelled / live operation that has not arrived at the gate yet: wait for it
+			if k >= 0 || time.Now().After(deadline) {
+				if k < 0 {
+					k = 0
+				}
+				close(l[k].ch)
+				e.waiting[key] = append(append([]gateWaiter{}, l[:k]...), l[k+1:]...)
+				e.gmu.Unlock()
+				return nil
+			}
 		}
 		e.gmu.Unlock()
 		if time.Now().After(deadline) {
@@ -169,8 +210,8 @@ func (e *env) ungate() {
 	e.gmu.Lock()
 	e.gated = false
 	for k, l := range e.waiting {
-		for _, ch := range l {
-			close(ch)
+		for _, w := range l {
+			close(w.ch)
 		}
 		delete(e.waiting, k)
 	}
@@ -179,7 +220,7 @@ func (e *env) ungate() {
 
 func newEnv(sc *script, seed int64) (*env, error) {
 	e := &env{names: hx.NewNames(seed), kinds: map[string]string{}, rng: rand.New(rand.NewSource(seed)), cids: sc.Cids,
-		gated: sc.Gated, waiting: map[string][]chan struct{}{}}
+		gated: sc.Gated, waiting: map[string][]gateWaiter{}}
 	e.self = e.names.Peer("self")
 	e.other = e.names.Peer("other")
 	store := dssync.MutexWrap(ds.NewMapDatastore())
@@ -336,9 +377,14 @@ func (e *env) do(a act) (string, error) {
 		}
 		return "", nil
 	case "HandleErr", "Finish":
-		return "", e.releaseGate("returned", a.Cid, callKind(a.Op))
+		want := a.wantCancelled()
+		if a.Name == "Finish" {
+			f := false // a call that returned without error and is recorded as done belongs to the live operation
+			want = &f
+		}
+		return "", e.releaseGate("returned", a.Cid, callKind(a.Op), want)
 	case "Clean":
-		return "", e.releaseGate("clean", a.Cid, callKind(a.Op))
+		return "", e.releaseGate("clean", a.Cid, callKind(a.Op), nil)
 	}
 	return "", fmt.Errorf("unknown action %q", a.Name)
 }
@@ -489,7 +535,7 @@ func runScript(sc *script, seed int64, out chan<- *obsRec) (matched bool, infra 
 			// last action of a behaviour that ends before the next stable state: no prediction to compare
 			// with; record the result and let the epilogue judge what the real code makes of it
 			o := e.waitStable(60*time.Millisecond, 2*time.Second)
-			o.Script, o.I, o.Act, o.Res, o.ExpRes, o.Healthy = sc.ID, i, s.Act, res, s.Res, false
+			o.Script, o.I, o.Act, o.Res, o.ExpRes, o.Healthy = sc.ID, i, s.Act.out(), res, s.Res, false
 			o.Match = err == nil && (res == "" || res == s.Res)
 			if !o.Match {
 				o.Why = "result"
@@ -538,7 +584,7 @@ func runScript(sc *script, seed int64, out chan<- *obsRec) (matched bool, infra 
 			}
 			o.Match = false
 		}
-		o.Script, o.I, o.Act, o.Res, o.ExpRes, o.Healthy = sc.ID, i, s.Act, res, s.Res, s.Healthy
+		o.Script, o.I, o.Act, o.Res, o.ExpRes, o.Healthy = sc.ID, i, s.Act.out(), res, s.Res, s.Healthy
 		// quiescent: nothing queued, no worker busy, no call in flight. When the real projection equals the
 		// predicted one the specification knows exactly; otherwise: settled, no call in flight and no worker
 		// held at a gate.
